@@ -243,6 +243,13 @@ def c06_case(ctx: Ctx, case: dict):
 def c06_family(ctx: Ctx):
     """rate expressions whose g is exactly controllable"""
     rng = ctx.rng
+    # first, deterministically: a non-default delta with |g| between the default and that delta, under every accepted name
+    fixed = getattr(ctx, "_c06_fixed", 0)
+    if fixed < 2:
+        ctx._c06_fixed = fixed + 1
+        alias = ["generalized_rush_larsen", "forward_generalized_rush_larsen"][fixed]
+        pts = [{"x": 1.3, "y": -0.8, "a": ga, "b": 0.9, "t": 0.0, "dt": dt_} for ga in (1e-3, -2e-2, 0.3) for dt_ in (1.0, 1e-3)]
+        return {"text": "states(x=1, y=2)\nparameters(a=0.001, b=0.9)\ndx_dt = a*x + b*y\ndy_dt = -y\n", "delta": 0.5, "points": pts, "alias": alias}
     k = rng.choice(["affine", "log", "inv", "quad", "expo", "zero", "cond", "condzero", "condconst", "nested"])
     c = round(rng.uniform(0.2, 3), 3)
     if k == "affine":
